@@ -180,6 +180,8 @@ pub struct Prehistory<'a> {
     pub calls: usize,
     pub in_chunk: usize,
     pub out_chunk: usize,
+    /// after those calls: inflateSync over bytes that contain no 00 00 FF FF marker (it must fail and change nothing)
+    pub failed_sync: bool,
 }
 
 impl<'a> InfOpts<'a> {
@@ -245,6 +247,9 @@ pub trait InfBack: Sized {
     fn reset(&mut self) -> Option<c_int> {
         None
     }
+    fn sync(&mut self, _ip: *const u8, _ic: usize) -> Option<c_int> {
+        None
+    }
     fn end(self) -> c_int;
 }
 
@@ -291,6 +296,11 @@ impl<A: Z> InfBack for CApi<A> {
     }
     fn reset(&mut self) -> Option<c_int> {
         Some(unsafe { A::inflateReset(&mut *self.strm) })
+    }
+    fn sync(&mut self, ip: *const u8, ic: usize) -> Option<c_int> {
+        self.strm.next_in = ip;
+        self.strm.avail_in = ic as u32;
+        Some(unsafe { A::inflateSync(&mut *self.strm) })
     }
     fn totals(&self) -> (u64, u64, u64) {
         (self.strm.total_in as u64, self.strm.total_out as u64, self.strm.adler as u64)
@@ -429,6 +439,15 @@ pub fn run_inflate_with<B: InfBack>(data: &[u8], sched: &InfSchedule, o: &InfOpt
             pos += (co.din_ptr.max(0) as usize).min(ic);
             if !matches!(co.rc, Z_OK | Z_BUF_ERROR) {
                 break;
+            }
+        }
+        if ph.failed_sync {
+            let junk = [0x55u8, 0xAA, 0x12, 0x34, 0x56, 0x78, 0x9A];
+            let ip = ar.inp.put_right(&junk);
+            if let Some(rc) = be.sync(ip, junk.len()) {
+                if rc == Z_OK {
+                    viol(&mut run, "C14", "reuse/inflateSync-found-marker", "inflateSync reported success on bytes without a 00 00 FF FF marker".to_string());
+                }
             }
         }
         if let Some(rc) = be.reset() {
